@@ -91,7 +91,7 @@ theorem C07_cancel_error_concmap' (hc : 0 < cfg.c) (hfix : cfg.fix24 = true) (hr
     result channel is closed, and the consumer's pull (already past the terminal's ctx check) reports end of stream:
     `nil` with nothing delivered of one element. -/
 def d24Schedule : List ConcMap.Label :=
-  [.pTop, .pEmitVal, .pSend, .pTop, .pEmitEof, .cCheck, .cancel, .wExitCtx, .pCloseSrc, .pWait, .cClosed]
+  [.pTop, .pEmitVal, .pSend, .pTop, .pEmitEof, .cCheck, .cancel, .wExitCtx, .pStop, .pCloseSrc, .pWait, .cClosed]
 
 theorem C07_witness_concmap_cancel_ok :
     ∃ s, Reachable (ConcMap.sys { n := 1, c := 1, fix24 := false }) s ∧
